@@ -93,6 +93,25 @@ Definition at_insert (trk : list nat) (krs : list (key * row)) (listed : option 
       end
   end.
 
+(* INSERT ... ON DUPLICATE KEY UPDATE (insert_on_update_executor.go): m = keys of the existing rows that collide with
+   a VALUES row on some unique key (the before-image query: one arm per unique index and VALUES row), u = the ON
+   DUPLICATE KEY UPDATE assignments, krs = the rows that do not collide and are inserted.  Both images carry all
+   columns; after image = before-image arms OR (pk = before-image keys), i.e. the colliding rows by key and the new rows.
+   Assigning a primary-key column is refused up front (checkDuplicateKeyUpdate): assigns_pk. *)
+Definition at_upsert (pk all : list nat) (assigns_pk : bool) (m : list key) (u : row -> row) (krs : list (key * row)) (t : tbl) : res :=
+  if assigns_pk then Err EPkChanged
+  else
+    match apply_upd pk u m t with
+    | None => Err EDupKey
+    | Some t1 =>
+        match insert_rows krs t1 with
+        | None => Err EDupKey
+        | Some t2 =>
+            let before := img_of all t m in
+            Ok t2 before (img_of all t2 (map fst before ++ map fst krs))
+        end
+    end.
+
 (* what the database does with the key column of an INSERT: a listed value that is not NULL/0 is taken,
    an omitted column gets consecutive generated values starting at LastInsertId *)
 Definition valid_key_value (v : value) : bool :=
